@@ -601,7 +601,11 @@ def gen_views(repo):
                 "   arguments is replaced by np.array(view), then the numpy callable is applied *)\n"
                 "Definition av_ufunc_converts_then_applies : bool := true.\n"
                 "Definition av_function_converts_then_applies : bool := true.\n"
-                "Definition av_convert_recurses_lists_tuples : bool := true.\n")
+                "Definition av_convert_recurses_lists_tuples : bool := true.\n"
+                "(* ... the positional arguments only: the keyword arguments (out=, where=, dtype=, casting=, axis= ...) reach the\n"
+                "   numpy callable as they were given (`**kwargs` untouched, nothing popped, nothing added) *)\n"
+                "Definition av_ufunc_passes_keywords : bool := true.\n"
+                "Definition av_function_passes_keywords : bool := true.\n")
     o.add("av_protocols", av_protocols)
 
     # ------------------------------------------------------------ SubFieldView
